@@ -8,23 +8,34 @@
 (* read makes the run stop with an error BEFORE a file is touched.                                              *)
 EXTENDS Naturals, Sequences, FiniteSets, TLC, Json
 
-CONSTANTS Depth
+CONSTANTS Depth,
+          Explicit     \* TRUE: sources may also spell out an option's DEFAULT value, and the fourth option is in play
+                       \*       (defects are left to the other configurations: the two dimensions multiply)
 
-Opts == {"wrap_column", "begin_style", "use_tabs"}
-\* two admissible non-default values per option (index 1, 2); index 0 = default
+\* "other" stands for any of the remaining options (format_multiline_strings, tab_width, continuation_indents,
+\* line_ending, encoding): the replay picks one per scenario (a refinement of this model)
+Opts == {"wrap_column", "begin_style", "use_tabs", "other"}
+\* index 0 = not set in this source; 1 (2) = admissible non-default values; the highest index of an option = its
+\* default value WRITTEN OUT (wrap_column 3, the others 2): not setting an option and setting it to its default are
+\* different sources with the same meaning - and a written-out default shadows what a lower source says
+Top == [wrap_column |-> 3, begin_style |-> 2, use_tabs |-> 2, other |-> 2]
+IsDefault(o, i) == i = 0 \/ i = Top[o]
 \* bad_value: a value of the wrong type (tab_width = "wide"); out_of_range: a number outside the option's domain
 \* (tab_width = 258 for an eight-bit option) - it must be rejected, not reduced to some value inside the domain
 \* unreadable: the file cannot be read as text (not valid UTF-8): whichever way it was chosen, the run stops
-Defects == {"none", "unknown_key", "bad_value", "out_of_range", "unreadable"}
+\* coerced: an ill-typed value that the configuration library converts instead of rejecting (a float or a boolean
+\* for a number, a number for a boolean): the property says "rejected", so it is an error here like bad_value
+Defects == IF Explicit THEN {"none"} ELSE {"none", "unknown_key", "bad_value", "coerced", "out_of_range", "unreadable"}
 
 \* a source: which value (0 = not set, 1, 2) per option, and a defect
-Sources == {s \in [wrap_column : 0..2, begin_style : 0..1, use_tabs : 0..1, defect : Defects] :
+Sources == {s \in [wrap_column : IF Explicit THEN 0..3 ELSE 0..2, begin_style : IF Explicit THEN 0..2 ELSE 0..1,
+                    use_tabs : IF Explicit THEN 0..2 ELSE 0..1, other : IF Explicit THEN 0..2 ELSE {0}, defect : Defects] :
               \* keep the space small: at most two options set per source
               Cardinality({o \in Opts : s[o] # 0}) <= 2}
-Absent == [wrap_column |-> 0, begin_style |-> 0, use_tabs |-> 0, defect |-> "absent"]      \* no file at this place
-NoSource == [wrap_column |-> 0, begin_style |-> 0, use_tabs |-> 0, defect |-> "none"]
+Absent == [wrap_column |-> 0, begin_style |-> 0, use_tabs |-> 0, other |-> 0, defect |-> "absent"]      \* no file at this place
+NoSource == [wrap_column |-> 0, begin_style |-> 0, use_tabs |-> 0, other |-> 0, defect |-> "none"]
 \* a DIRECTORY that happens to be called pasfmt.toml: it is not a configuration file and does not end the search
-DirEntry == [wrap_column |-> 0, begin_style |-> 0, use_tabs |-> 0, defect |-> "is_dir"]
+DirEntry == [wrap_column |-> 0, begin_style |-> 0, use_tabs |-> 0, other |-> 0, defect |-> "is_dir"]
 IsFile(s) == s # Absent /\ s # DirEntry
 
 VARIABLES tree,        \* 0..Depth -> a source or Absent (no pasfmt.toml at that level)
@@ -39,12 +50,13 @@ vars == <<tree, cfgArg, argSource, overrides, chosen, eff, error, phase, touched
 Single == {s \in Sources : Cardinality({o \in Opts : s[o] # 0}) + (IF s.defect = "none" THEN 0 ELSE 1) = 1}
 
 \* the sources a file may hold: one setting, one defect, or two settings (one of them shadowing a default)
-FewSources == Single \cup {[wrap_column |-> 1, begin_style |-> 1, use_tabs |-> 0, defect |-> "none"],
-                            [wrap_column |-> 2, begin_style |-> 0, use_tabs |-> 1, defect |-> "unknown_key"]}
+FewSources == Single \cup {[wrap_column |-> 1, begin_style |-> 1, use_tabs |-> 0, other |-> 0, defect |-> "none"]}
+                     \cup (IF Explicit THEN {[wrap_column |-> 0, begin_style |-> 0, use_tabs |-> 2, other |-> 1, defect |-> "none"]}
+                           ELSE {[wrap_column |-> 2, begin_style |-> 0, use_tabs |-> 1, other |-> 0, defect |-> "unknown_key"]})
 
 Init == /\ tree \in [0..Depth -> FewSources \cup {Absent, DirEntry}]
         /\ Cardinality({d \in 0..Depth : tree[d] # Absent}) <= 2
-        /\ cfgArg \in {"none", "file", "missing", "dir"}
+        /\ cfgArg \in (IF Explicit THEN {"none", "file"} ELSE {"none", "file", "missing", "dir"})
         /\ argSource \in (IF cfgArg = "file" THEN FewSources ELSE {NoSource})
         /\ LET OSingle == {a \in Single : a.defect # "unreadable"} IN        \* (a -C option is text already)
            overrides \in {<<>>} \cup {<<a>> : a \in OSingle} \cup {<<a, b>> : a \in OSingle, b \in OSingle}
@@ -104,9 +116,12 @@ Precedence ==
       IF setters # {} THEN eff[o] = overrides[CHOOSE i \in setters : \A j \in setters : j <= i][o]
       ELSE IF chosen # Absent /\ chosen[o] # 0 THEN eff[o] = chosen[o]
       ELSE eff[o] = 0
+\* the MEANING of the effective configuration: a written-out default and an option nobody set are the same
+\* configuration, and must give byte-identical output (the replay compares with the canonical spelling of Meaning)
+Meaning == [o \in Opts |-> IF IsDefault(o, eff[o]) THEN 0 ELSE eff[o]]
 \* a farther pasfmt.toml never matters, whatever it holds
 NearestOnly == phase = "done" /\ cfgArg = "none" => chosen = Nearest
 
 Emit == phase = "done" => PrintT(<<"REPLAY", ToJson([tree |-> [d \in 0..Depth |-> tree[d]], cfgArg |-> cfgArg, argSource |-> argSource,
-                                                      overrides |-> overrides, error |-> error, eff |-> eff])>>)
+                                                      overrides |-> overrides, error |-> error, eff |-> eff, meaning |-> Meaning])>>)
 =============================================================================
